@@ -95,7 +95,7 @@ def showKind : CbKind → String
   | .startup => "startup" | .discover => "discover" | .connect => "connect" | .release => "release"
 
 def showEv : Ev → String
-  | .call s => showSite s
+  | .call s _ => showSite s
   | .sleep => "sleep"
   | .term b => if b then "t1" else "t0"
   | .cb r k c d => (if d then "cb*:" else "cb:") ++ showRole r ++ ":" ++ showKind k ++ s!":{c}"
